@@ -404,6 +404,8 @@ type vC01Rig struct {
 	wflTimeout time.Duration
 	gmu        sync.Mutex
 	gates      map[int]chan struct{}
+	maxAppend  int                                                            // > 0: hashicorp/raft MaxAppendEntries of every node (C17: 1, one entry per AppendEntries)
+	wrapTrans  func(n *vC01Node, t *hraft.InmemTransport) hraft.Transport // optional: what a node's Raft reads its RPCs from (C17: the joiner's gate)
 }
 
 func (r *vC01Rig) closeGate(k int) {
@@ -468,6 +470,9 @@ func (r *vC01Rig) raftConfig(n *vC01Node) *hraft.Config {
 	c.SnapshotThreshold = 1 << 40
 	c.TrailingLogs = r.trailing
 	c.ShutdownOnRemove = false // as raft.Config.Default imposes
+	if r.maxAppend > 0 {
+		c.MaxAppendEntries = r.maxAppend
+	}
 	c.LogOutput = ioutil.Discard
 	c.Logger = nil
 	return c
@@ -510,7 +515,11 @@ func (r *vC01Rig) start(n *vC01Node) error {
 	}
 	n.guard = g
 	r.mu.Unlock()
-	ra, err := hraft.NewRaft(cfg.RaftConfig, g, n.logs, n.stable, n.snaps, n.trans)
+	var tr hraft.Transport = n.trans
+	if r.wrapTrans != nil {
+		tr = r.wrapTrans(n, n.trans)
+	}
+	ra, err := hraft.NewRaft(cfg.RaftConfig, g, n.logs, n.stable, n.snaps, tr)
 	if err != nil {
 		return err
 	}
